@@ -43,7 +43,18 @@ def main() -> int:
             return 0
         return int(mod.replay(obj) or 0)
     ctx = core.Check(a.prop, getattr(mod, "LEVEL", "proof"))
-    return int(mod.run(ctx))
+    try:
+        return int(mod.run(ctx))
+    except core.Infra:
+        raise
+    except Exception as e:
+        # The check could not establish the tie between model and code (the harness could not drive the
+        # implementation): the property is no longer shown to hold.  Decision rule, path 2.
+        import traceback
+        tb = traceback.format_exc()
+        print(tb, file=sys.stderr)
+        ctx.proof_broken.append(f"check raised {type(e).__name__}: {str(e)[:400]} | {tb[-1200:]}")
+        return ctx.finish()
 
 
 if __name__ == "__main__":
